@@ -158,8 +158,14 @@ def report(jr, case_name, direction, training, relation, err):
         jr["inconclusive"].append({"query": "%s/%s/%s" % (case_name, direction, relation), "why": "not reproduced on real tensors", "error": err, "replay": rep})
 
 
-def replay(case_name, direction, training, seed=0):
-    res = {"reproduced": False}
+def replay(case_name, direction, training, seed=0, variant=None):
+    if variant is None:
+        for v in ("interior", "boundary"):
+            res = replay(case_name, direction, training, seed, v)
+            if res.get("reproduced"):
+                return res
+        return res
+    res = {"reproduced": False, "inputs": variant}
     try:
         case = CS.by_name(case_name)
         torch.manual_seed(seed)
@@ -168,6 +174,11 @@ def replay(case_name, direction, training, seed=0):
             C01._concretise_stubs(m)
         m.train(training)
         big = torch.rand((3,) + tuple(x.shape[1:]), dtype=x.dtype) * 0.8 + 0.1
+        if variant == "boundary":
+            # values exactly on the ends of the unit interval (0.0 / 1.0 pixels): clamping paths are taken
+            flat = big.reshape(3, -1)
+            flat[:, 0::2] = 0.0
+            flat[:, 1::2] = 1.0
         view = big[1:2]
         before = big.clone()
         cb = ctx.clone() if ctx is not None else None
@@ -226,10 +237,74 @@ def job_dist(cfg):
                 err = "model state changed: %s" % ch
             jr["outcomes"].append({"name": nm + "/no-side-effects", "kind": "goal", "status": "unsat" if err is None else "sat", "s": 0.0, "expect": "unsat", "detail": err or ""})
             if err:
-                jr["inconclusive"].append({"query": nm, "why": err})
+                with stubs.real_torch():
+                    rep = replay_dist(nm)
+                sig = {"case": nm, "relation": "no-side-effects"}
+                payload = {"property": PROP, "kernel": nm, "relation": "no-side-effects", "signature": sig, "error": err, "replay_result": rep, "replay_call": {"fn": "harness.C13:replay_dist", "args": {"name": nm}}}
+                if rep.get("reproduced"):
+                    jr["violations"].append({"kernel": nm, "relation": "no-side-effects", "signature": sig, "replay": C.write_replay(PROP, "".join(ch if ch.isalnum() else "_" for ch in nm), payload), "detail": rep})
+                else:
+                    jr["inconclusive"].append({"query": nm, "why": err, "replay": rep})
     jr["paths"] = len(items)
     jr["samples"].append({"calls": [i[0] for i in items]})
     return jr
+
+
+def replay_dist(name):
+    """real tensors, float32 and float64 inputs: inputs, context, every parameter and every buffer (persistent or not,
+    value and dtype) are unchanged by an evaluation-mode call, and repeating the first call gives the same numbers."""
+    res = {"reproduced": False}
+    try:
+        torch.manual_seed(0)
+        t = ST.PointwiseAffineTransform(shift=0.5, scale=2.0)
+        mk = {
+            "StandardNormal.log_prob": (lambda: DN.StandardNormal([2]), lambda d, x, c: d.log_prob(x)),
+            "ConditionalDiagonalNormal.log_prob": (lambda: DN.ConditionalDiagonalNormal([2]), lambda d, x, c: d.log_prob(x, context=c)),
+            "ConditionalDiagonalNormal.sample": (lambda: DN.ConditionalDiagonalNormal([2]), lambda d, x, c: d.sample(2, context=c)),
+            "Flow.log_prob": (lambda: FB.Flow(t, DN.ConditionalDiagonalNormal([2])), lambda d, x, c: d.log_prob(x, context=c)),
+            "Flow.sample": (lambda: FB.Flow(t, DN.ConditionalDiagonalNormal([2])), lambda d, x, c: d.sample(2, context=c)),
+            "Flow.sample_and_log_prob": (lambda: FB.Flow(t, DN.ConditionalDiagonalNormal([2])), lambda d, x, c: d.sample_and_log_prob(2, context=c)),
+            "Flow.transform_to_noise": (lambda: FB.Flow(t, DN.StandardNormal([2])), lambda d, x, c: d.transform_to_noise(x)),
+        }
+        fac, call = mk[name]
+        d = fac().eval()
+
+        def state():
+            out = {}
+            for k, v in list(d.named_parameters()) + list(d.named_buffers()):
+                out[k] = (v.dtype, v.detach().clone())
+            return out
+
+        problems = []
+        x64, c64 = torch.randn(3, 2, dtype=torch.float64), torch.randn(3, 4, dtype=torch.float64)
+        first = None
+        with torch.no_grad():
+            for x, c in ((x64, c64), (x64.float(), c64.float()), (x64, c64)):
+                bx, bc, st = x.clone(), c.clone(), state()
+                try:
+                    r = call(d, x, c)
+                except Exception as e:  # noqa  (a dtype combination the class does not support is not a side effect)
+                    res.setdefault("skipped", []).append("%s inputs: %s" % (x.dtype, type(e).__name__))
+                    continue
+                if not torch.equal(x, bx):
+                    problems.append("inputs modified (%s)" % x.dtype)
+                if not torch.equal(c, bc):
+                    problems.append("context modified (%s)" % x.dtype)
+                after = state()
+                for k in st:
+                    if k not in after or after[k][0] != st[k][0] or not torch.equal(after[k][1], st[k][1]):
+                        problems.append("state %s changed by a %s call" % (k, x.dtype))
+                if "sample" not in name and x.dtype == torch.float64:
+                    r0 = r[0] if isinstance(r, tuple) else r
+                    if first is None:
+                        first = r0.clone()
+                    elif not torch.equal(first, r0):
+                        problems.append("the same float64 call returns different numbers after a float32 call")
+        res["problems"] = problems
+        res["reproduced"] = bool(problems)
+    except Exception as e:  # noqa
+        res["exception"] = "%s: %s" % (type(e).__name__, e)
+    return res
 
 
 def job(cfg):
